@@ -15,6 +15,8 @@
 #include "../common.h"
 
 #include <hgraph/lib/std/operators/higher_order.h>
+#include <hgraph/lib/std/operators/impl/record_replay_memory_impl.h>
+#include <hgraph/lib/testing/record_replay.h>
 
 #include <array>
 #include <memory>
@@ -49,7 +51,7 @@ namespace
         std::map<long, NodeSpec>           nodes;
     };
 
-    Scenario *g_scn = nullptr;
+    thread_local Scenario *g_scn = nullptr;
 
     NodeSpec &spec_of(long id)
     {
@@ -352,7 +354,7 @@ namespace
     };
 
     // ---------- lifecycle vocabulary (C14): every phase logs from user code and may throw on its k-th occurrence ----------
-    std::map<std::pair<long, std::string>, long> g_phase_count;
+    thread_local std::map<std::pair<long, std::string>, long> g_phase_count;
 
     void maybe_fault(long id, const char *phase, const NodeView &self, DateTime now)
     {
@@ -662,6 +664,32 @@ namespace
         static void           eval(In<"x", TS<Int>> x, Out<TS<Bool>> out) { out.set(x.value() != 0); }
     };
 
+    // ---------- global state vocabulary (C07): state written by one run must never be visible to another ----------
+    struct VGSet
+    {
+        static constexpr auto name = "v_gset";
+        static void eval(Scalar<"id", Int> id, Scalar<"key", Str> key, In<"x", TS<Int>> x, GlobalStateView gs, NodeView self, DateTime now)
+        {
+            FnLog log(id.value(), self, now);
+            log.ins({in_rec(x)});
+            gs.set(key.value(), Value{Int{x.value()}});
+            log.emit();
+        }
+    };
+    struct VGProbe
+    {
+        static constexpr auto name = "v_gprobe";
+        static void eval(Scalar<"id", Int> id, Scalar<"key", Str> key, In<"x", TS<Int>> x, GlobalStateView gs, NodeView self, DateTime now,
+                         Out<TS<Int>> out)
+        {
+            FnLog log(id.value(), self, now);
+            log.ins({in_rec(x)});
+            const long v = gs.contains(key.value()) ? static_cast<long>(gs.get(key.value()).checked_as<Int>()) : -1;
+            out.set(Int{v});
+            log.out(v).emit();
+        }
+    };
+
     using TryIntResult = UnNamedTSB<Field<"exception", TS<NodeError>>, Field<"out", TS<Int>>>;
 
     struct VTryOut
@@ -909,6 +937,9 @@ namespace
                 auto cond = wire<VToBool>(w, in.at(0));
                 env.ports.emplace(id, wire<stdlib::if_then_else>(w, cond, in.at(1), in.at(2)).as<TS<Int>>());
             }
+            else if (kind == "gset") { wire<VGSet>(w, sid, Str{l.gets("key", "k")}, in.at(0)); }
+            else if (kind == "gprobe") { env.ports.emplace(id, wire<VGProbe>(w, sid, Str{l.gets("key", "k")}, in.at(0))); }
+            else if (kind == "grec") { wire<stdlib::dense_record_impl>(w, in.at(0), Str{l.gets("key", "r")}); }
             else if (kind == "sched") { wire<VSched>(w, sid, in.at(0)); }
             else if (kind == "lsrc") { env.ports.emplace(id, wire<LSrc>(w, sid, Int{l.geti("cnt", 2)})); }
             else if (kind == "lpass") { env.ports.emplace(id, wire<LPass>(w, sid, in.at(0))); }
@@ -1053,11 +1084,10 @@ namespace
         }
     }
 
-    void run_scenario(Scenario &scn)
+    // wire the scenario's root graph on the calling thread; logs scn / wirefail / the compiled graph
+    std::optional<GraphBuilder> wire_scenario(Scenario &scn)
     {
         g_scn = &scn;
-        instances().reset();
-        g_phase_count.clear();
         J("scn").str("name", scn.name).i("start", scn.start).i("end", scn.end).emit();
         std::optional<GraphBuilder> gb;
         try
@@ -1067,14 +1097,52 @@ namespace
         catch (const std::exception &ex)
         {
             J("wirefail").str("msg", ex.what()).emit();
-            J("done").emit();
-            trace().flush();
-            return;
+            gb.reset();
         }
-        dump_builder(*gb);
+        if (gb) { dump_builder(*gb); }
+        return gb;
+    }
+
+    void report_failure(Scenario &scn, const std::string &msg)
+    {
+        // what the caller is told: which root node / phase the message names, which injected faults it quotes
+        long        node = -1;
+        std::string phase;
+        if (auto p = msg.find("node["); p != std::string::npos)
+        {
+            node = std::atol(msg.c_str() + p + 5);
+            if (auto q = msg.find("] ", p); q != std::string::npos)
+            {
+                auto r = msg.find(' ', q + 2);
+                phase  = msg.substr(q + 2, r == std::string::npos ? std::string::npos : r - (q + 2));
+            }
+        }
+        std::string tags = "[";
+        for (auto &[id, sp] : scn.nodes)
+        {
+            for (const char *ph : {"start", "eval", "stop"})
+            {
+                if (msg.find("fault " + std::to_string(id) + " " + ph) != std::string::npos)
+                {
+                    if (tags.size() > 1) { tags += ","; }
+                    tags += "[" + std::to_string(id) + "," + jstr(ph) + "]";
+                }
+            }
+        }
+        tags += "]";
+        J("ret").i("ok", 0).str("msg", msg.substr(0, 300)).i("node", node).str("phase", phase).raw("tags", tags).emit();
+    }
+
+    // make an executor from (a copy of) the builder and run it on the calling thread
+    void execute_builder(Scenario &scn, const GraphBuilder &gb, GraphExecutorPhaseRunner runner = {})
+    {
+        g_scn = &scn;
+        instances().reset();
+        g_phase_count.clear();
         Obs                  obs;
         GraphExecutorBuilder eb;
-        eb.graph_builder(std::move(*gb)).start_time(to_dt(scn.start)).end_time(to_dt(scn.end)).cleanup_on_error(scn.cleanup).add_lifecycle_observer(&obs);
+        eb.graph_builder(gb).start_time(to_dt(scn.start)).end_time(to_dt(scn.end)).cleanup_on_error(scn.cleanup).add_lifecycle_observer(&obs);
+        if (runner) { eb.phase_runner(std::move(runner)); }
         {
             GraphExecutorValue ex = eb.make_executor();
             try
@@ -1084,33 +1152,7 @@ namespace
             }
             catch (const std::exception &e)
             {
-                // what the caller is told: which root node / phase the message names, which injected faults it quotes
-                const std::string msg = e.what();
-                long              node = -1;
-                std::string       phase;
-                if (auto p = msg.find("node["); p != std::string::npos)
-                {
-                    node = std::atol(msg.c_str() + p + 5);
-                    if (auto q = msg.find("] ", p); q != std::string::npos)
-                    {
-                        auto r = msg.find(' ', q + 2);
-                        phase  = msg.substr(q + 2, r == std::string::npos ? std::string::npos : r - (q + 2));
-                    }
-                }
-                std::string tags = "[";
-                for (auto &[id, sp] : scn.nodes)
-                {
-                    for (const char *ph : {"start", "eval", "stop"})
-                    {
-                        if (msg.find("fault " + std::to_string(id) + " " + ph) != std::string::npos)
-                        {
-                            if (tags.size() > 1) { tags += ","; }
-                            tags += "[" + std::to_string(id) + "," + jstr(ph) + "]";
-                        }
-                    }
-                }
-                tags += "]";
-                J("ret").i("ok", 0).str("msg", msg.substr(0, 300)).i("node", node).str("phase", phase).raw("tags", tags).emit();
+                report_failure(scn, e.what());
             }
             catch (...)
             {
@@ -1118,68 +1160,89 @@ namespace
             }
         }
         J("released").emit();
+    }
+
+    void run_scenario(Scenario &scn)
+    {
+        instances().reset();
+        auto gb = wire_scenario(scn);
+        if (gb) { execute_builder(scn, *gb); }
         J("done").emit();
         trace().flush();
         g_scn = nullptr;
     }
+
+    struct ScenarioParser
+    {
+        std::unique_ptr<Scenario> scn;
+        GraphSpec                *cur{nullptr};
+        // returns true when the line was part of a scenario definition
+        bool feed(const std::string &text)
+        {
+            Line l = parse_line(text);
+            if (l.pos.empty()) { return true; }
+            const std::string &cmd = l.pos[0];
+            if (cmd == "scn")
+            {
+                scn       = std::make_unique<Scenario>();
+                scn->name = l.pos.size() > 1 ? l.pos[1] : "";
+            }
+            else if (cmd == "opt")
+            {
+                scn->start   = l.geti("start", 1);
+                scn->end     = l.geti("end", 8);
+                scn->cleanup = l.geti("cleanup", 1) != 0;
+            }
+            else if (cmd == "graph")
+            {
+                GraphSpec g;
+                g.name              = l.pos.at(1);
+                g.nin               = l.geti("nin", 0);
+                scn->graphs[g.name] = g;
+                cur                 = &scn->graphs[g.name];
+            }
+            else if (cmd == "endgraph") { cur = nullptr; }
+            else if (cmd == "out") { cur->out = l.pos.at(1); }
+            else if (cmd == "n")
+            {
+                NodeSpec sp;
+                sp.id   = std::stol(l.pos.at(1));
+                sp.kind = l.pos.at(2);
+                sp.line = l;
+                if (l.has("in")) { sp.ins = split(l.gets("in"), ','); }
+                if (l.has("script") && sp.kind != "dsrc")
+                {
+                    for (auto &tv : split(l.gets("script"), ';'))
+                    {
+                        auto p = split(tv, ':');
+                        sp.script.emplace_back(std::stol(p.at(0)), std::stol(p.at(1)));
+                    }
+                }
+                scn->nodes[sp.id] = sp;
+                cur->stmts.push_back(text);
+            }
+            else if (cmd == "bind") { cur->stmts.push_back(text); }
+            else { return false; }
+            return true;
+        }
+    };
 }  // namespace
 
+#ifndef HGV_NO_MAIN
 int main(int argc, char **argv)
 {
     stdlib::register_standard_operators();
-    std::string                 text;
-    std::unique_ptr<Scenario>   scn;
-    GraphSpec                  *cur = nullptr;
+    std::string    text;
+    ScenarioParser parser;
     while (std::getline(std::cin, text))
     {
         Line l = parse_line(text);
         if (l.pos.empty() || l.pos[0][0] == '#') { continue; }
-        const std::string &cmd = l.pos[0];
-        if (cmd == "scn")
-        {
-            scn       = std::make_unique<Scenario>();
-            scn->name = l.pos.size() > 1 ? l.pos[1] : "";
-        }
-        else if (cmd == "opt")
-        {
-            scn->start   = l.geti("start", 1);
-            scn->end     = l.geti("end", 8);
-            scn->cleanup = l.geti("cleanup", 1) != 0;
-        }
-        else if (cmd == "graph")
-        {
-            GraphSpec g;
-            g.name               = l.pos.at(1);
-            g.nin                = l.geti("nin", 0);
-            scn->graphs[g.name]  = g;
-            cur                  = &scn->graphs[g.name];
-        }
-        else if (cmd == "endgraph") { cur = nullptr; }
-        else if (cmd == "out") { cur->out = l.pos.at(1); }
-        else if (cmd == "n")
-        {
-            NodeSpec sp;
-            sp.id   = std::stol(l.pos.at(1));
-            sp.kind = l.pos.at(2);
-            sp.line = l;
-            if (l.has("in")) { sp.ins = split(l.gets("in"), ','); }
-            if (l.has("script"))
-            {
-                for (auto &tv : split(l.gets("script"), ';'))
-                {
-                    auto p = split(tv, ':');
-                    sp.script.emplace_back(std::stol(p.at(0)), std::stol(p.at(1)));
-                }
-            }
-            scn->nodes[sp.id] = sp;
-            cur->stmts.push_back(text);
-        }
-        else if (cmd == "bind") { cur->stmts.push_back(text); }
-        else if (cmd == "run")
+        if (l.pos[0] == "run")
         {
             try
             {
-                run_scenario(*scn);
+                run_scenario(*parser.scn);
             }
             catch (const std::exception &e)
             {
@@ -1188,7 +1251,7 @@ int main(int argc, char **argv)
                 trace().flush();
             }
         }
-        else
+        else if (!parser.feed(text))
         {
             std::cerr << "hgv_engine: unknown command: " << text << "\n";
             return 2;
@@ -1196,3 +1259,4 @@ int main(int argc, char **argv)
     }
     return 0;
 }
+#endif  // HGV_NO_MAIN
